@@ -332,9 +332,15 @@ def compare_at_masters(vf_bytes, masters, optimize, stats, cff, extra_texts=()):
         mf = TTFont(io.BytesIO(data)); morder = mf.getGlyphOrder()
         hv = HBFont(vf_bytes, order, variations=dict(user)); hm = HBFont(data, morder)
         # 0.5 delta rounding (+0.5 IUP tolerance) + 0.1: the master's normalised coordinate is reached through F2Dot14-quantised fvar/avar values
-        tol = 0.5 + (0.5 if optimize else 0.0) + 0.1
+        from props.C08 import _active_tuples, _norm_loc
+        nl_ = _norm_loc(vf, dict(user))
         for g in morder:
             if g not in order: return "glyph %r of master %s is not in the built font" % (g, name)
+            # built_value_within_half bounds the rounding at a master by 1/2 WITHOUT IUP optimisation; with it every tuple's deltas are
+            # each approximated within its own tolerance of 1/2, so the budget grows with the tuples active at the location
+            # (thorough tier, generated designspace #1280: 1.11 units at an off-axis master with four active tuples)
+            n_act_ = max(1, _active_tuples(vf, g, nl_)) if optimize else 0
+            tol = 0.5 + 0.5 * n_act_ + 0.1
             a = _pts(hv.outline(order.index(g))); b = _pts(hm.outline(morder.index(g)))
             if cff:
                 # CFF2 blends are exact at masters up to the rounding of each relative operand's delta
